@@ -25,7 +25,7 @@ From SK Require Import lib.LGraph model.C01_Model model.C02_Model model.C09_Mode
   proof.C09_Canon proof.C09_Valid proof.C09_Balance proof.C09_Main proof.C09_Indep proof.C09_Indep2 proof.C09_ValidRC proof.C09_WL proof.C09_NautyRigid proof.C09_Nauty.
 From SK Require Import lib.StrJoin model.C09_Strings model.C09_State proof.C09_Str proof.C09_Expand proof.C09_Graph proof.C09_Backends proof.C09_State proof.C09_StrFit.
 From SK Require Import model.C09_Helpers proof.C09_Helpers model.C09_Records proof.C09_Records proof.C09_Top proof.C09_Opt.
-From SK Require Import model.C01_String model.C09_Normalize proof.C09_Normalize.
+From SK Require Import model.C01_String model.C01_HBal model.C09_Normalize proof.C09_Normalize proof.C09_NormBalance proof.C09_WLRefuted.
 From SK Require model.C08_Model proof.C08_Spec model.C01_Opts.
 Import ListNotations.
 
@@ -93,10 +93,10 @@ Print Assumptions C09_unbalanced_collision_refuted.
 
 (** 2. Numbering / atom-order independence and fixed point, graph level, GENERIC over the canonical order of the back-end.
        (Rounds 2-4 called these two statements _partial: they left open (i) the RDKit writer / parser contract, (ii) the
-       invariance premise, (iii) presentations that list the bonds in another order.  Round 5 closes all three for the
-       back-ends of the property's quantifier - section 8: C09_numbering_independent_nauty / _wl, C09_fixed_point_nauty / _wl,
-       C09_canonical_rsmi_* - so the statements below are now lemmas "given the invariance of the graph canonicaliser", named
-       accordingly.)
+       invariance premise, (iii) presentations that list the bonds in another order.  Round 5 closes (i) as explicit premises
+       and (iii) in full; (ii) is discharged for nauty on rigid reactant graphs and for wl on pairwise distinct colours -
+       section 8, which also says what remains open (wl with tied colours: refuted; fixed point on symmetric reactants:
+       oracle only).  The statements below are the generic lemmas "given the invariance of the graph canonicaliser".)
        Both presentations (G, H) and (p.G, p.H) (node ids renamed by an injective p, atoms listed in any order, atom_map
        attributes rewritten, bonds listed in corresponding order) get THE SAME canonical reactant and product graphs up to node
        insertion order, PROVIDED (premise, last line) the graph canonicaliser gives corresponding atoms the same canonical id,
@@ -557,6 +557,16 @@ Theorem C09_normalize_side_spec : forall (X : mgraph) (lh : list Z), wf X ->
 Proof. exact normalize_side_spec. Qed.
 Print Assumptions C09_normalize_side_spec.
 
+(** ... and NormalizeAAM.fit does not change whether the reaction is balanced: every element count (hydrogens included) and the
+    total charge of both sides are kept - for well-formed sides without bridging hydrogens ([one_parent], C01) whose bonded
+    hydrogens are neutral and carry no hydrogens of their own ([h_plain]: always so for RDKit readings).  Uses C01's
+    hydrogen_balance (read-only). *)
+Theorem C09_normalize_keeps_balance : forall G H : mgraph,
+  wf G -> wf H -> one_parent G -> one_parent H -> h_plain G -> h_plain H ->
+  balancedb (fst (normalize_core G H)) (snd (normalize_core G H)) = balancedb G H.
+Proof. exact normalize_keeps_balance. Qed.
+Print Assumptions C09_normalize_keeps_balance.
+
 (** NormalizeAAM helpers (compared on every `subgraph` case) *)
 Theorem C09_reset_indices_spec : forall G : mgraph, wf G ->
   node_ids (reset_indices G) = map N.of_nat (seq 1 (length (gnodes G))) /\ amap_id (reset_indices G) /\
@@ -648,7 +658,15 @@ Theorem C09_canonicalise_fails_iff : forall (G H Gc : mgraph) (order : list N),
 Proof. exact canonicalise_fails_iff. Qed.
 Print Assumptions C09_canonicalise_fails_iff.
 
-(** 8. FULL numbering / atom-order independence and fixed point of the two back-ends (round 5).
+(** 8. Numbering / atom-order independence and fixed point of the two back-ends (round 5).
+       STATUS w.r.t. the property text (audit of 14:05 UTC):
+       * independence, back-end nauty: FULL under the text's hypothesis (all reactant atoms distinguishable = [rigid]);
+       * independence, back-end wl: proved under the STRONGER hypothesis "pairwise distinct WL colours" (theorems named
+         _distinct_colours) and REFUTED under the text's hypothesis: C09_numbering_independent_wl_refuted (known finding
+         wl-tied-colours-distinguishable: distinguishable atoms that share their WL colour are ordered by the input numbering);
+       * fixed point: the text puts NO condition on it; proved for rigid reactant graphs (nauty, theorems named _rigid) and for
+         distinct colours (wl, _distinct_colours).  On symmetric reactants / tied colours the clause is ORACLE ONLY (checked
+         unconditionally on every canonicaliser case: canon-fixed-point; it holds on all populations).
        Vocabulary (proof/C09_Graph.v, proof/C09_Backends.v):
          [same_graph X Y]   = Permutation (gnodes X) (gnodes Y) /\ Permutation (map nflip (gedges X)) (map nflip (gedges Y)),
                               nflip (u, v, o) = (min u v, max u v, o): the same labelled graph, whatever the order of the atom
@@ -676,7 +694,7 @@ Theorem C09_numbering_independent_nauty : forall (G H G' H' : mgraph) (p : N -> 
 Proof. exact numbering_independent_nauty_sg. Qed.
 Print Assumptions C09_numbering_independent_nauty.
 
-Theorem C09_numbering_independent_wl : forall (ranks1 ranks2 : list (N * Z)) (G H G' H' : mgraph) (p : N -> N),
+Theorem C09_numbering_independent_wl_distinct_colours : forall (ranks1 ranks2 : list (N * Z)) (G H G' H' : mgraph) (p : N -> N),
   parsed G -> parsed H -> (exists s, In s (node_ids G) /\ In s (node_ids H)) ->
   (forall a b, p a = p b -> a = b) ->
   (forall m n, In m (node_ids H) -> ~ In m (node_ids G) -> In n (node_ids H) -> ~ In n (node_ids G) -> (m <= n)%N -> (p m <= p n)%N) ->
@@ -687,11 +705,11 @@ Theorem C09_numbering_independent_wl : forall (ranks1 ranks2 : list (N * Z)) (G 
     canonicalise_wl ranks2 G' H' = Some (Gc2, pairs2, Hc2) /\
     same_graph Gc2 Gc1 /\ same_graph Hc2 Hc1.
 Proof. exact numbering_independent_wl_sg. Qed.
-Print Assumptions C09_numbering_independent_wl.
+Print Assumptions C09_numbering_independent_wl_distinct_colours.
 
 (** fixed point: EVERY parsed presentation (G', H') of the canonical graphs - in particular what the parser returns for the
     canonical string - is canonicalised to the canonical graphs again *)
-Theorem C09_fixed_point_nauty : forall G H : mgraph,
+Theorem C09_fixed_point_nauty_rigid : forall G H : mgraph,
   parsed G -> parsed H -> (exists s, In s (node_ids G) /\ In s (node_ids H)) ->
   C08_Spec.els_ok (to_c08 G) -> rigid (to_c08 G) ->
   exists (pairs1 : list (N * N)) (Gc1 Hc1 : mgraph),
@@ -700,9 +718,9 @@ Theorem C09_fixed_point_nauty : forall G H : mgraph,
       exists (pairs2 : list (N * N)) (Gc2 Hc2 : mgraph),
         canonicalise_nauty G' H' = Some (Gc2, pairs2, Hc2) /\ same_graph Gc2 Gc1 /\ same_graph Hc2 Hc1.
 Proof. exact fixed_point_nauty_sg. Qed.
-Print Assumptions C09_fixed_point_nauty.
+Print Assumptions C09_fixed_point_nauty_rigid.
 
-Theorem C09_fixed_point_wl : forall (ranks1 : list (N * Z)) (G H : mgraph),
+Theorem C09_fixed_point_wl_distinct_colours : forall (ranks1 : list (N * Z)) (G H : mgraph),
   parsed G -> parsed H -> (exists s, In s (node_ids G) /\ In s (node_ids H)) -> ranks_distinct ranks1 G ->
   exists (pairs1 : list (N * N)) (Gc1 Hc1 : mgraph),
     canonicalise_wl ranks1 G H = Some (Gc1, pairs1, Hc1) /\
@@ -711,7 +729,7 @@ Theorem C09_fixed_point_wl : forall (ranks1 : list (N * Z)) (G H : mgraph),
       exists (pairs2 : list (N * N)) (Gc2 Hc2 : mgraph),
         canonicalise_wl ranks2 G' H' = Some (Gc2, pairs2, Hc2) /\ same_graph Gc2 Gc1 /\ same_graph Hc2 Hc1.
 Proof. exact fixed_point_wl_sg. Qed.
-Print Assumptions C09_fixed_point_wl.
+Print Assumptions C09_fixed_point_wl_distinct_colours.
 
 (** STRING level: CanonRSMI.canonical_rsmi.  "does not depend on the input's numbering or atom order" and "is a fixed point
     of the canonicaliser", relative to the two RDKit contracts (explicit premises [writer_ok], [reads_back]) - and, for wl,
@@ -727,7 +745,7 @@ Theorem C09_canonical_rsmi_independent_nauty : forall (W : mgraph -> str) (G H G
 Proof. exact canonical_rsmi_independent_nauty. Qed.
 Print Assumptions C09_canonical_rsmi_independent_nauty.
 
-Theorem C09_canonical_rsmi_independent_wl : forall (W : mgraph -> str) (ranks1 ranks2 : list (N * Z)) (G H G' H' : mgraph) (p : N -> N),
+Theorem C09_canonical_rsmi_independent_wl_distinct_colours : forall (W : mgraph -> str) (ranks1 ranks2 : list (N * Z)) (G H G' H' : mgraph) (p : N -> N),
   writer_ok W ->
   parsed G -> parsed H -> (exists s, In s (node_ids G) /\ In s (node_ids H)) ->
   (forall a b, p a = p b -> a = b) ->
@@ -736,9 +754,9 @@ Theorem C09_canonical_rsmi_independent_wl : forall (W : mgraph -> str) (ranks1 r
   (forall n, In n (node_ids G) -> C08_Model.rank_of ranks2 (p n) = C08_Model.rank_of ranks1 n) -> ranks_distinct ranks1 G ->
   exists s, canonical_rsmi W (canonicalise_wl ranks1 G H) = Some s /\ canonical_rsmi W (canonicalise_wl ranks2 G' H') = Some s.
 Proof. exact canonical_rsmi_independent_wl. Qed.
-Print Assumptions C09_canonical_rsmi_independent_wl.
+Print Assumptions C09_canonical_rsmi_independent_wl_distinct_colours.
 
-Theorem C09_canonical_rsmi_fixed_point_nauty : forall (W : mgraph -> str) (P : str -> option (mgraph * mgraph)) (G H : mgraph),
+Theorem C09_canonical_rsmi_fixed_point_nauty_rigid : forall (W : mgraph -> str) (P : str -> option (mgraph * mgraph)) (G H : mgraph),
   writer_ok W ->
   parsed G -> parsed H -> (exists s, In s (node_ids G) /\ In s (node_ids H)) ->
   C08_Spec.els_ok (to_c08 G) -> rigid (to_c08 G) ->
@@ -746,9 +764,9 @@ Theorem C09_canonical_rsmi_fixed_point_nauty : forall (W : mgraph -> str) (P : s
   exists s G' H', canonical_rsmi W (canonicalise_nauty G H) = Some s /\ P s = Some (G', H') /\
                   canonical_rsmi W (canonicalise_nauty G' H') = Some s.
 Proof. exact canonical_rsmi_fixed_point_nauty. Qed.
-Print Assumptions C09_canonical_rsmi_fixed_point_nauty.
+Print Assumptions C09_canonical_rsmi_fixed_point_nauty_rigid.
 
-Theorem C09_canonical_rsmi_fixed_point_wl : forall (W : mgraph -> str) (P : str -> option (mgraph * mgraph)) (ranks1 : list (N * Z)) (G H : mgraph),
+Theorem C09_canonical_rsmi_fixed_point_wl_distinct_colours : forall (W : mgraph -> str) (P : str -> option (mgraph * mgraph)) (ranks1 : list (N * Z)) (G H : mgraph),
   writer_ok W ->
   parsed G -> parsed H -> (exists s, In s (node_ids G) /\ In s (node_ids H)) -> ranks_distinct ranks1 G ->
   (forall Gc1 pairs1 Hc1, canonicalise_wl ranks1 G H = Some (Gc1, pairs1, Hc1) -> reads_back W P Gc1 Hc1) ->
@@ -757,7 +775,29 @@ Theorem C09_canonical_rsmi_fixed_point_wl : forall (W : mgraph -> str) (P : str 
       (forall n, In n (node_ids G) -> C08_Model.rank_of ranks2 (sigma_of (wl_order ranks1 G) n) = C08_Model.rank_of ranks1 n) ->
       canonical_rsmi W (canonicalise_wl ranks2 G' H') = Some s.
 Proof. exact canonical_rsmi_fixed_point_wl. Qed.
-Print Assumptions C09_canonical_rsmi_fixed_point_wl.
+Print Assumptions C09_canonical_rsmi_fixed_point_wl_distinct_colours.
+
+(** back-end wl is NOT numbering independent under the text's hypothesis (audit finding; known finding
+    wl-tied-colours-distinguishable; regress corpus wl_tied_colours.json replays it on the implementation): 1-bromononane +
+    hydroxide, all reactant atoms distinguishable (the nauty search ends with exactly ONE minimal leaf: no non-trivial
+    automorphism, C08_Auts.nauty_auts_complete), every product atom has a reactant partner, the WL colours of the two
+    presentations correspond - but the mid-chain atoms 5 and 6 share their colour after the default 3 rounds, so exchanging
+    their numbers exchanges their canonical ids: the canonical reactant graphs differ, while back-end nauty returns the same
+    graphs for both presentations. *)
+Theorem C09_numbering_independent_wl_refuted :
+  exists (ranks1 ranks2 : list (N * Z)) (G H G' H' : mgraph) (p : N -> N),
+    parsed G /\ parsed H /\ parsed G' /\ parsed H' /\ (exists s, In s (node_ids G) /\ In s (node_ids H)) /\
+    (forall a b, p a = p b -> a = b) /\ presents p G G' /\ presents p H H' /\
+    (forall n, In n (node_ids G) -> C08_Model.rank_of ranks2 (p n) = C08_Model.rank_of ranks1 n) /\
+    length (snd (C08_Model.nauty_acc (to_c08 G))) = 1%nat /\
+    (forall n, In n (node_ids H) -> In n (node_ids G)) /\
+    exists Gc1 pr1 Hc1 Gc2 pr2 Hc2 Nc1 qr1 Mc1 Nc2 qr2 Mc2,
+      canonicalise_wl ranks1 G H = Some (Gc1, pr1, Hc1) /\ canonicalise_wl ranks2 G' H' = Some (Gc2, pr2, Hc2) /\
+      ~ same_graph Gc2 Gc1 /\
+      canonicalise_nauty G H = Some (Nc1, qr1, Mc1) /\ canonicalise_nauty G' H' = Some (Nc2, qr2, Mc2) /\
+      same_graph Nc2 Nc1 /\ same_graph Mc2 Mc1.
+Proof. exact numbering_independent_wl_refuted. Qed.
+Print Assumptions C09_numbering_independent_wl_refuted.
 
 (** the canonical graphs are parsed graphs themselves (distinct positive ids, atom_map = id), for every canonical order *)
 Theorem C09_canonical_graphs_parsed : forall (G H Gc1 : mgraph) (order1 : list N),
